@@ -301,3 +301,103 @@ def fq12_alphabet(seed, limit=4096):
     for v in _vectors(12, seed, "f12", limit):
         out.append((((v[0], v[1]), (v[2], v[3]), (v[4], v[5])), ((v[6], v[7]), (v[8], v[9]), (v[10], v[11]))))
     return out
+
+
+# ------------------------------------------------------------------------------------------- crafted points: formula boundaries
+def cube_roots_fq(a):
+    """all cube roots of a in Fq (q - 1 = 9 m, 3 does not divide m), [] if a is not a cube"""
+    a %= q
+    if a == 0:
+        return [0]
+    if pow(a, (q - 1) // 3, q) != 1:
+        return []
+    m = (q - 1) // 9
+    k = next(k for k in range(3) if (1 + k * m) % 3 == 0)
+    y0 = pow(a, (1 + k * m) // 3, q)                    # y0^3 = a * (a^m)^k, and a^m has order 1 or 3
+    n = next(n for n in range(2, 200) if pow(n, (q - 1) // 3, q) != 1)
+    z9 = pow(n, m, q)                                   # a primitive 9th root of unity
+    for j in range(9):
+        y = y0 * pow(z9, j, q) % q
+        if pow(y, 3, q) == a:
+            z3 = pow(z9, 3, q)
+            return [y, y * z3 % q, y * z3 * z3 % q]
+    raise AssertionError("cube root not found")
+
+
+def _sqrt_fq(a):
+    a %= q
+    s = pow(a, (q + 1) // 4, q)
+    return s if s * s % q == a else None
+
+
+_FB = {}
+
+
+def formula_boundary_points_g1():
+    """G1-curve points (z = 1) for which an INTERMEDIATE of the doubling / mixed-addition formulas, as the Montgomery residue the library
+    stores, sits at a boundary of the small-multiple steps (3A = 2A + A, 8C by three doublings, 4HH): k*q/f and its neighbours for f in
+    {2, 3, 4, 8}.  No boundary of the coordinates themselves leads there; the points are found by extracting roots of the target.
+    Returns {"double": [(label, P)], "mixed": [(label, P1, P2)]} - the points are ordinary curve points (mostly outside the subgroup)."""
+    if _FB:
+        return _FB
+    Rinv = pow(2**384, -1, q)
+    dbl, mixed = [], []
+
+    def targets(f):
+        for k in range(1, f):
+            base = (k * q) // f
+            for side in (0, 1):
+                yield k, side, base
+
+    # A = X^2 at k q / f  (E = 3A)
+    for f in (2, 3):
+        for k, side, base in targets(f):
+            j = 0
+            while True:
+                t = base - j if side == 0 else base + 1 + j
+                j += 1
+                X = _sqrt_fq(t * Rinv % q)
+                if X is None:
+                    continue
+                Y = _sqrt_fq(X**3 + 4)
+                if Y is None:
+                    continue
+                dbl.append(("X^2 residue = %dq/%d%s%d" % (k, f, "-" if side == 0 else "+", j), (X, Y)))
+                break
+    # C = Y^4 at k q / 8  (8C)
+    for k, side, base in targets(8):
+        j = 0
+        while True:
+            t = base - j if side == 0 else base + 1 + j
+            j += 1
+            B = _sqrt_fq(t * Rinv % q)
+            if B is None:
+                continue
+            Y = _sqrt_fq(B) or _sqrt_fq(q - B)
+            if Y is None or pow(Y, 4, q) != t * Rinv % q:
+                continue
+            xs = cube_roots_fq(Y * Y - 4)
+            if not xs:
+                continue
+            dbl.append(("Y^4 residue = %dq/8%s%d" % (k, "-" if side == 0 else "+", j), (xs[0], Y)))
+            break
+    # HH = (x2 - X1)^2 at k q / 4  (I = 4HH in the mixed addition with Z1 = 1)
+    gens = [ref.pt_mul(ref.G1_GEN, m, 1) for m in range(2, 40)]
+    for k, side, base in targets(4):
+        j = 0
+        done = False
+        while not done:
+            t = base - j if side == 0 else base + 1 + j
+            j += 1
+            H = _sqrt_fq(t * Rinv % q)
+            if H is None:
+                continue
+            for P2 in gens:
+                X1 = (P2[0] - H) % q
+                Y1 = _sqrt_fq(X1**3 + 4)
+                if Y1 is not None:
+                    mixed.append(("(x2-X1)^2 residue = %dq/4%s%d" % (k, "-" if side == 0 else "+", j), (X1, Y1), P2))
+                    done = True
+                    break
+    _FB.update({"double": dbl, "mixed": mixed})
+    return _FB
